@@ -444,14 +444,16 @@ class CExec:
             return out
         return after_init(st)
 
-    def invariant_loop(self, s, st, modified, inv, variant=None, heap=True, name="loop"):
+    def invariant_loop(self, s, st, modified, inv, variant=None, heap=True, name="loop", ghosts=None, mems=None):
         """Hoare rule for a C loop, for any number of iterations.
         modified: {local name: z3 sort} of the locals the body assigns (havocked at the loop head);
         inv(ex, st, entry) -> [(clause name, z3 Bool)] over a state (entry = state after the init statement);
         variant(ex, st) -> Int term that must decrease and stay >= 0 on every back edge (termination), or None.
         Obligations inv-init:* at entry and inv-keep:* on every back edge; the paths that leave the loop (break / return /
         condition false) continue from the *arbitrary* iteration, i.e. from a state about which only the invariant is known.
-        heap=True: the loop head also forgets every field / dict / list (the body runs Python code)."""
+        heap=True: the loop head also forgets every field / dict / list (the body runs Python code);
+        mems: names of memory maps the body writes when heap=False (forgotten at the head, described by the invariant);
+        ghosts: {ghost name: sort} ghost terms the body updates (forgotten at the head, described by the invariant)."""
         kind = s["kind"]
         if kind == "ForStmt":
             init, _cv, cond, inc, body = (s["inner"] + [None] * 5)[:5]
@@ -466,6 +468,13 @@ class CExec:
             sth = self.api.havoc(st1, "loop-head:" + name) if heap else st1.log(("python", "loop-head:" + name))
             for ln, srt in modified.items():
                 sth = sth.set(ln, cx.fresh("lh_" + ln, srt))
+            for mn in (mems or ()):
+                cur = sth.mem.get(mn)
+                if cur is None:
+                    raise Unsupported("loop rule: memory map %s not materialised before the loop" % mn)
+                sth = sth.with_mem(mn, cx.fresh("lh_" + mn.strip("@"), cur.sort()))
+            for gn, srt in (ghosts or {}).items():
+                sth = sth.gset(gn, cx.fresh("lh_" + gn, srt))
             if sth.own is not None:
                 sth = sth.with_own(cx.fresh("own_lh", sth.own.sort()))
             sth = sth.with_exc(cx.fresh("exc_lh", INT))
